@@ -280,7 +280,7 @@ Theorem endpoint_after st e p :
   endpoint (fst (step st e)) p = endpoint st p \/
   exists a, moves_to st e p a /\ endpoint (fst (step st e)) p = Some a.
 Proof.
-  destruct e as [now m sid|now m sid|now src|now src|now l|now q hid|now q a hid|q d|now]; cbn [step].
+  destruct e as [now m sid|now m sid|now src|now src|now l|now q hid|now q a hid|q d|now|q]; cbn [step].
   - unfold recv_init. destruct (init_accepts st now m) as [x|] eqn:E; [|left; reflexivity]. cbn [fst].
     rewrite (endpoint_put st x) by (try reflexivity; apply (init_accepts_found st now m); exact E).
     destruct (N.eqb_spec (p_id x) p) as [I|I]; [|left; reflexivity].
@@ -306,6 +306,10 @@ Proof.
     cbn [shift_hs p_endpoint]. destruct (N.eqb_spec (p_id x) p) as [I|I]; [|left; reflexivity].
     left. unfold endpoint. rewrite <- I, (found_self st q x F). reflexivity.
   - left. cbn [fst]. apply endpoint_restart.
+  - destruct (find_peer st q) as [x|] eqn:F; [|left; reflexivity]. cbn [fst].
+    rewrite (endpoint_put st x) by (try reflexivity; apply (found_self st q); exact F).
+    cbn [set_rekey p_endpoint]. destruct (N.eqb_spec (p_id x) p) as [I|I]; [|left; reflexivity].
+    left. unfold endpoint. rewrite <- I, (found_self st q x F). reflexivity.
 Qed.
 
 Theorem endpoint_changes_only_when st e p :
@@ -360,7 +364,7 @@ Proof.
   intros st p a K M Q. rewrite final_app, final_cons, (until_then_the_configured_endpoint _ _ _ Q).
   destruct (endpoint_after (final step st pre) e p) as [E|(a' & M' & E')].
   - (* a moving event writes its address even if it equals the old one *)
-    destruct e as [now m sid|now m sid|now src|now src|now l|now q hid|now q b hid|q d|now]; cbn [moves_to] in M; try contradiction.
+    destruct e as [now m sid|now m sid|now src|now src|now l|now q hid|now q b hid|q d|now|q]; cbn [moves_to] in M; try contradiction.
     + destruct M as (x & A & I & ->). rewrite <- I. apply (reply_to_new_endpoint _ now m sid x A).
     + destruct M as (x & A & I & ->). cbn [step]. unfold recv_resp. rewrite A. cbn [fst].
       rewrite (endpoint_put _ x) by (try reflexivity; apply (resp_accepts_found _ m); exact A).
@@ -372,7 +376,7 @@ Proof.
         cbn [with_ep p_id p_endpoint]. rewrite (find_id _ p x F), N.eqb_refl. reflexivity.
       * contradiction.
   - rewrite E'. f_equal.
-    destruct e as [now m sid|now m sid|now src|now src|now l|now q hid|now q b hid|q d|now]; cbn [moves_to] in *; try contradiction.
+    destruct e as [now m sid|now m sid|now src|now src|now l|now q hid|now q b hid|q d|now|q]; cbn [moves_to] in *; try contradiction.
     + destruct M as (x & A & I & ->). destruct M' as (x' & A' & I' & ->). reflexivity.
     + destruct M as (x & A & I & ->). destruct M' as (x' & A' & I' & ->). reflexivity.
     + destruct M as (_ & ->). destruct M' as (_ & ->). reflexivity.
@@ -406,7 +410,10 @@ Proof.
   intros F. pose proof (send_staged_endpoint st now x hid (p_id x) F) as E. rewrite N.eqb_refl in E.
   revert E. unfold send_staged. destruct (p_staged x =? 0); cbn [fst snd]; [constructor|].
   destruct (p_cur x); cbn [fst snd].
-  - intros E. apply send_to_ok; [exact E|]. intros a. split; reflexivity.
+  - intros E. apply Forall_app. split.
+    + apply send_to_ok; [exact E|]. intros a. split; reflexivity.
+    + destruct (p_rekey x && negb (now - p_last_sent x <? RekeyTimeout)); [|constructor].
+      apply send_to_ok; [exact E|]. intros a. split; reflexivity.
   - destruct (now - p_last_sent x <? RekeyTimeout); cbn [fst snd]; [constructor|].
     intros E. apply send_to_ok; [exact E|]. intros a. split; reflexivity.
 Qed.
@@ -418,7 +425,7 @@ Theorem outputs_go_to_endpoint st e :
   (forall now l, e <> EBatch now l) ->
   Forall (fun y => endpoint (fst (step st e)) (out_peer y) = Some (out_to y)) (snd (step st e)).
 Proof.
-  intros NB. destruct e as [now m sid|now m sid|now src|now src|now l|now q hid|now q a hid|q d|now]; cbn [step].
+  intros NB. destruct e as [now m sid|now m sid|now src|now src|now l|now q hid|now q a hid|q d|now|q]; cbn [step].
   - unfold recv_init. destruct (init_accepts st now m) as [x|] eqn:E; cbn [fst snd]; [|constructor].
     constructor; [|constructor]. cbn [out_peer out_to].
     rewrite (endpoint_put st x) by (try reflexivity; apply (init_accepts_found st now m); exact E).
@@ -437,6 +444,7 @@ Proof.
     apply send_staged_outputs. cbn [with_ep p_id]. rewrite (found_self st q x F). discriminate.
   - destruct (find_peer st q); cbn [fst snd]; constructor.
   - constructor.
+  - destruct (find_peer st q); cbn [fst snd]; constructor.
 Qed.
 
 (* -------------------------- replays stay replays, across restarts as well *)
@@ -497,7 +505,7 @@ Qed.
 (* the greatest consumed timestamp of a peer never decreases, whatever happens — restarts included *)
 Theorem last_timestamp_monotone st e q : last_ts st q <= last_ts (fst (step st e)) q.
 Proof.
-  destruct e as [now m sid|now m sid|now src|now src|now l|now p hid|now p a hid|p d|now]; cbn [step].
+  destruct e as [now m sid|now m sid|now src|now src|now l|now p hid|now p a hid|p d|now|p]; cbn [step].
   - unfold recv_init. destruct (init_accepts st now m) as [x|] eqn:E; cbn [fst]; [|lia].
     apply (put_mono st x); [apply (init_accepts_found st now m); exact E|reflexivity|].
     cbn [p_last_ts]. apply init_accepts_iff in E. lia.
@@ -515,6 +523,8 @@ Proof.
   - destruct (find_peer st p) as [x|] eqn:F; cbn [fst]; [|lia].
     apply (put_mono st x); [apply (found_self st p); exact F|reflexivity|]. cbn [shift_hs p_last_ts]. lia.
   - cbn [fst]. unfold last_ts. rewrite find_restart. destruct (find_peer st q); cbn [restart_peer p_last_ts]; lia.
+  - destruct (find_peer st p) as [x|] eqn:F; cbn [fst]; [|lia].
+    apply (put_mono st x); [apply (found_self st p); exact F|reflexivity|]. cbn [set_rekey p_last_ts]. lia.
 Qed.
 
 Lemma final_last_ts evs : forall st q, last_ts st q <= last_ts (final step st evs) q.
@@ -544,4 +554,24 @@ Proof.
   destruct (init_accepts st2 now2 m2) as [y|] eqn:E; [|reflexivity]. exfalso.
   apply init_accepts_iff in E. destruct E as (_ & (p' & Sp' & Fp') & _ & Ts & _).
   rewrite S, Sp in Sp'. inversion Sp'; subst p'. unfold last_ts in L. rewrite Fp' in L. lia.
+Qed.
+
+(* ------------------------------------------------------ crossed handshakes *)
+
+(* The device holds an unconfirmed responder keypair (next) when its own initiation completes:
+   next becomes previous and the OLD CURRENT session is discarded.  A transport message under
+   that discarded session — whatever its counter, tag or source — is then refused: stale
+   sessions cannot move the endpoint. *)
+Theorem crossed_handshake_discards_current st now m sid x s0 s1 e :
+  resp_accepts st m = Some x -> p_cur x = Some s0 -> p_next x = Some s1 ->
+  s_id s0 <> sid -> s_id s0 <> s_id s1 ->
+  t_owner e = Some (p_id x, s_id s0) ->
+  elem_accepts (fst (step st (EResp now m sid))) e = None.
+Proof.
+  intros A C Nx D1 D2 O. pose proof (resp_accepts_found st m x A) as F.
+  cbn [step]. unfold recv_resp. rewrite A. cbn [fst].
+  unfold elem_accepts. rewrite O, find_put. cbn [p_id]. rewrite N.eqb_refl, F.
+  unfold slot_of. cbn [p_next p_cur p_prev new_sess s_id]. rewrite Nx.
+  destruct (N.eqb_spec sid (s_id s0)) as [E|E]; [congruence|].
+  destruct (N.eqb_spec (s_id s1) (s_id s0)) as [E'|E']; [congruence|]. reflexivity.
 Qed.
